@@ -40,7 +40,7 @@ macro_rules! cc_arm {
 }
 const MODULE: Option<FixtureScope> = Some(FixtureScope::Module);
 
-/// @harness id=c18_ctx_nowhere props=C18 unwind=40 mem=12 cap=1800 gates=oracle unwindset=find_inner:3;memchr_seq:400;rec~ParseErrorType:3;rec~LexicalErrorType:3;rec~FStringErrorType:3;rec~drop_glue::<std::io::Error:3
+/// @harness id=c18_ctx_nowhere props=ATTEMPT tier=thorough unwind=18 mem=12 cap=1800 gates=oracle unwindset=find_inner:3;memchr_seq:400;rec~ParseErrorType:3;rec~LexicalErrorType:3;rec~FStringErrorType:3;rec~drop_glue::<std::io::Error:3;memchr_bytewise:64;sip:48;next_match:40
 /// D_COMPLETION: module level (import line), the @pytest.fixture decorator line, a non-test helper's signature
 /// and body: no completion context (symbolic selector over the four cursor lines).
 cc_arm!(c18_ctx_nowhere, oracle_only_d_completion, {
@@ -51,7 +51,7 @@ cc_arm!(c18_ctx_nowhere, oracle_only_d_completion, {
     reach!("c18.ctx_nowhere.end");
     std::mem::forget(r);
 });
-/// @harness id=c18_ctx_fixture props=C18 unwind=40 mem=12 cap=1800 gates=oracle unwindset=find_inner:3;memchr_seq:400;rec~ParseErrorType:3;rec~LexicalErrorType:3;rec~FStringErrorType:3;rec~drop_glue::<std::io::Error:3
+/// @harness id=c18_ctx_fixture props=ATTEMPT tier=thorough unwind=18 mem=12 cap=1800 gates=oracle unwindset=find_inner:3;memchr_seq:400;rec~ParseErrorType:3;rec~LexicalErrorType:3;rec~FStringErrorType:3;rec~drop_glue::<std::io::Error:3;memchr_bytewise:64;sip:48;next_match:40
 /// D_COMPLETION: the module-scoped fixture `fx(a,\n b)`: both signature lines => signature (declared a, b; scope
 /// module), its two body lines => body.
 cc_arm!(c18_ctx_fixture, oracle_only_d_completion, {
@@ -67,7 +67,7 @@ cc_arm!(c18_ctx_fixture, oracle_only_d_completion, {
     reach!("c18.ctx_fixture.end");
     std::mem::forget(r); std::mem::forget(want);
 });
-/// @harness id=c18_ctx_test props=C18 unwind=40 mem=12 cap=1800 gates=oracle unwindset=find_inner:3;memchr_seq:400;rec~ParseErrorType:3;rec~LexicalErrorType:3;rec~FStringErrorType:3;rec~drop_glue::<std::io::Error:3
+/// @harness id=c18_ctx_test props=ATTEMPT tier=thorough unwind=18 mem=12 cap=1800 gates=oracle unwindset=find_inner:3;memchr_seq:400;rec~ParseErrorType:3;rec~LexicalErrorType:3;rec~FStringErrorType:3;rec~drop_glue::<std::io::Error:3;memchr_bytewise:64;sip:48;next_match:40
 /// D_COMPLETION: `@pytest.mark.usefixtures("fx")` => usefixtures context; `def test_x(fx):  # c` => signature;
 /// the body lines `y = 1`, `for i in fx:` (ends in a colon) and `pass` => body.
 cc_arm!(c18_ctx_test, oracle_only_d_completion, {
@@ -84,7 +84,7 @@ cc_arm!(c18_ctx_test, oracle_only_d_completion, {
     reach!("c18.ctx_test.end");
     std::mem::forget(r); std::mem::forget(want);
 });
-/// @harness id=c18_ctx_method props=C18 unwind=40 mem=12 cap=1800 gates=oracle unwindset=find_inner:3;memchr_seq:400;rec~ParseErrorType:3;rec~LexicalErrorType:3;rec~FStringErrorType:3;rec~drop_glue::<std::io::Error:3
+/// @harness id=c18_ctx_method props=ATTEMPT tier=thorough unwind=18 mem=12 cap=1800 gates=oracle unwindset=find_inner:3;memchr_seq:400;rec~ParseErrorType:3;rec~LexicalErrorType:3;rec~FStringErrorType:3;rec~drop_glue::<std::io::Error:3;memchr_bytewise:64;sip:48;next_match:40
 /// D_COMPLETION: class-nested test method: signature (declared self, fx) and body; the `class TestK:` line: nothing.
 cc_arm!(c18_ctx_method, oracle_only_d_completion, {
     stubs_mask();
@@ -98,23 +98,24 @@ cc_arm!(c18_ctx_method, oracle_only_d_completion, {
     reach!("c18.ctx_method.end");
     std::mem::forget(r); std::mem::forget(want);
 });
-/// @harness id=c18_ctx_typing props=C18 unwind=40 mem=12 cap=1800 gates=oracle unwindset=find_inner:3;memchr_seq:400;rec~ParseErrorType:3;rec~LexicalErrorType:3;rec~FStringErrorType:3;rec~drop_glue::<std::io::Error:3
+/// @harness id=c18_ctx_typing props=C18 unwind=18 mem=12 cap=1800 gates=oracle unwindset=find_inner:3;memchr_seq:400;rec~ParseErrorType:3;rec~LexicalErrorType:3;rec~FStringErrorType:3;rec~drop_glue::<std::io::Error:3;memchr_bytewise:64;sip:48;next_match:40
 /// incomplete documents (the parser fails, text fallback): `def test_x(` => signature of test_x; a fixture being
 /// typed `def fy(a,` => signature with declared a; `@pytest.mark.usefixtures(` => usefixtures; `def helper(` => nothing.
 cc_arm!(c18_ctx_typing, oracle_only_d_typing_open, {
     stubs_mask();
-    let k: u8 = any(); assume(k < 4);
-    let (r, want) = match k {
-        0 => (ctx_at(T_D_TYPING_OPEN, 1, 11), Some(sig("test_x", 2, false, &[], None))),
-        1 => (ctx_at(T_D_TYPING_COMMA, 2, 9), Some(sig("fy", 3, true, &["a"], Some(FixtureScope::Function)))),
-        2 => (ctx_at(T_D_TYPING_USEFIX, 2, 25), Some(CompletionContext::UsefixturesDecorator)),
-        _ => (ctx_at(T_D_TYPING_HELPER, 1, 11), None),
-    };
-    check!("c18.ctx.incomplete_forms", r == want);
+    // four concrete calls, one after the other (a selector over heap-heavy call sites does not fit, DESIGN §9.2)
+    let r0 = ctx_at(T_D_TYPING_OPEN, 1, 11);
+    check!("c18.ctx.typing_open_paren", r0 == Some(sig("test_x", 2, false, &[], None)));
+    let r1 = ctx_at(T_D_TYPING_COMMA, 2, 9);
+    check!("c18.ctx.typing_after_comma", r1 == Some(sig("fy", 3, true, &["a"], Some(FixtureScope::Function))));
+    let r2 = ctx_at(T_D_TYPING_USEFIX, 2, 25);
+    check!("c18.ctx.typing_usefixtures", r2 == Some(CompletionContext::UsefixturesDecorator));
+    let r3 = ctx_at(T_D_TYPING_HELPER, 1, 11);
+    check!("c18.ctx.typing_helper_none", r3.is_none());
     reach!("c18.ctx_typing.end");
-    std::mem::forget(r); std::mem::forget(want);
+    std::mem::forget(r0); std::mem::forget(r1); std::mem::forget(r2); std::mem::forget(r3);
 });
-/// @harness id=c18_ctx_comment_colon props=C18 unwind=40 mem=12 cap=1800 gates=oracle unwindset=find_inner:3;memchr_seq:400;rec~ParseErrorType:3;rec~LexicalErrorType:3;rec~FStringErrorType:3;rec~drop_glue::<std::io::Error:3
+/// @harness id=c18_ctx_comment_colon props=ATTEMPT tier=thorough unwind=18 mem=12 cap=1800 gates=oracle unwindset=find_inner:3;memchr_seq:400;rec~ParseErrorType:3;rec~LexicalErrorType:3;rec~FStringErrorType:3;rec~drop_glue::<std::io::Error:3;memchr_bytewise:64;sip:48;next_match:40
 /// D_COMMENT_COLON: `def test_x(fx):  # c` followed directly by a body line that ends in a colon: that body line
 /// must be classified as body.
 cc_arm!(c18_ctx_comment_colon, oracle_only_d_comment_colon, {
